@@ -38,6 +38,7 @@ type Global struct {
 	framesExt map[*ssa.Function]map[string]bool
 	keyName  []string
 	nonNil   map[*ssa.Global]bool
+	freshErr map[*ssa.Global]bool // assigned once, at init, from errors.New / fmt.Errorf: a pointer nobody else holds
 	loadS    float64
 	frameS   float64
 	repo     string
@@ -229,6 +230,7 @@ func loadGlobal(repo string) (*Global, error) {
 func (g *Global) initNonNil(v *ssa.Global) bool {
 	if g.nonNil == nil {
 		g.nonNil = map[*ssa.Global]bool{}
+		g.freshErr = map[*ssa.Global]bool{}
 		bad := map[*ssa.Global]bool{}
 		for _, fn := range g.allFns {
 			for _, b := range fn.Blocks {
@@ -252,11 +254,15 @@ func (g *Global) initNonNil(v *ssa.Global) bool {
 							good = false
 						}
 					}
-					if good && !bad[gv] {
+					if good && !bad[gv] && !g.nonNil[gv] {
 						g.nonNil[gv] = true
+						_, isCall := st.Val.(*ssa.Call)
+						g.freshErr[gv] = isCall
 					} else {
+						// assigned more than once, or outside init, or from something else
 						bad[gv] = true
 						delete(g.nonNil, gv)
+						delete(g.freshErr, gv)
 					}
 				}
 			}
